@@ -3,6 +3,7 @@ package checks
 import (
 	"errors"
 	"fmt"
+	"net/http"
 	"net/http/httptest"
 	"strings"
 
@@ -21,7 +22,9 @@ type chainShape struct {
 	Via   string `json:"via"`   // how route middleware is attached: "variadic" | "use" | "mixed"
 	Beh   string `json:"beh"`   // one behaviour code (letter) per handler
 	// Hooks: router-level hooks installed before serving: 'E' = OnError (writes nothing), 'P' = OnPanic (never fires:
-	// no handler panics); neither may change what the chain does
+	// no handler panics); neither may change what the chain does. 'W' = an extra first global middleware replaces c.Resp
+	// by a pass-through wrapper that, like net/http, sends 200 itself when the first write comes without a WriteHeader.
+	// 'H' = before the measured request the router served a request whose handler hijacked the connection, and a 404.
 	Hooks string `json:"hooks,omitempty"`
 }
 
@@ -103,6 +106,25 @@ func mkHandler(id int, b refmodel.Behaviour, log *[]refmodel.Event) rux.HandlerF
 	}
 }
 
+// statusW is a transparent ResponseWriter wrapper of the usual kind: it passes everything on and, when the first write
+// arrives without a WriteHeader, announces 200 itself first
+type statusW struct {
+	http.ResponseWriter
+	wrote bool
+}
+
+func (w *statusW) WriteHeader(code int) {
+	w.wrote = true
+	w.ResponseWriter.WriteHeader(code)
+}
+
+func (w *statusW) Write(b []byte) (int, error) {
+	if !w.wrote {
+		w.WriteHeader(200)
+	}
+	return w.ResponseWriter.Write(b)
+}
+
 // runChain builds the router for the shape and serves one request.
 func runChain(sh chainShape, table map[byte]refmodel.Behaviour) (obs chainObs, bs []refmodel.Behaviour, regPanic any) {
 	n := sh.N
@@ -122,6 +144,19 @@ func runChain(sh chainShape, table map[byte]refmodel.Behaviour) (obs chainObs, b
 	}
 	if strings.Contains(sh.Hooks, "P") {
 		r.OnPanic = func(c *rux.Context) { c.AbortWithStatus(599) }
+	}
+	if strings.Contains(sh.Hooks, "W") {
+		r.Use(func(c *rux.Context) {
+			c.Resp = &statusW{ResponseWriter: c.Resp}
+			c.Next()
+		})
+	}
+	if strings.Contains(sh.Hooks, "H") {
+		r.GET("/hijack-first", func(c *rux.Context) {
+			if conn, _, err := c.Resp.(http.Hijacker).Hijack(); err == nil && conn != nil {
+				_ = conn.Close()
+			}
+		})
 	}
 	if sh.Via == "notfound" {
 		// the chain is: n-1 global middleware around the built-in not-found responder (no route matches)
@@ -167,6 +202,11 @@ func runChain(sh chainShape, table map[byte]refmodel.Behaviour) (obs chainObs, b
 	if strings.Contains(sh.Beh, "r") {
 		// the route a handler may re-dispatch to: one aborting middleware, a main handler that must never start
 		r.GET("/inner", mkHandler(101, refmodel.Behaviour{}, &log), mkHandler(100, refmodel.Behaviour{refmodel.SProbe, refmodel.SAbort, refmodel.SProbe}, &log))
+	}
+	if strings.Contains(sh.Hooks, "H") {
+		_ = try(func() { r.ServeHTTP(&hjRec{ResponseRecorder: httptest.NewRecorder()}, httptest.NewRequest("GET", "/hijack-first", nil)) })
+		_ = try(func() { r.ServeHTTP(httptest.NewRecorder(), httptest.NewRequest("GET", "/no/such/route/either", nil)) })
+		log = log[:0]
 	}
 	w := httptest.NewRecorder()
 	obs.pv = try(func() { r.ServeHTTP(w, httptest.NewRequest("GET", "/x", nil)) })
